@@ -515,6 +515,15 @@ func (v *UnixVolume) Untrash(loc string) (err error) {
 			foundTrash = true
 			err = v.os.Rename(v.blockPath(f.Name()), v.blockPath(loc))
 			if err == nil {
+				// The untrashed copy carries the timestamp it
+				// had when it was trashed, and may have replaced
+				// a newer copy (written or touched after this
+				// one was trashed). Give it a current timestamp
+				// (as the S3 driver's Untrash does) so that a
+				// recent Put/Touch stays protected from Trash
+				// for BlobSigningTTL.
+				ts := time.Now()
+				os.Chtimes(v.blockPath(loc), ts, ts)
 				break
 			}
 		}
